@@ -322,7 +322,8 @@ def cargo_build(crate, bins=None, hooks=True, release=False, timeout=3000):
             shutil.rmtree(alt)
         shutil.copytree(cdir, alt, ignore=shutil.ignore_patterns("target", "Cargo.lock"))
         ct = os.path.join(alt, "Cargo.toml")
-        open(ct, "w").write(open(ct).read().replace('"/repo/', '"' + os.path.realpath(REPO) + '/'))
+        txt = open(ct).read()
+        open(ct, "w").write(txt.replace('"/repo/', '"' + os.path.realpath(REPO) + '/'))
         cdir = alt
         tdir = os.path.join(CACHE, "alt", tag, "target-" + crate)
     os.makedirs(tdir, exist_ok=True)
